@@ -36,6 +36,8 @@ type c26Conn struct {
 	Iface       string `json:"iface"`
 	Undesired   bool   `json:"undesired"`
 	HotplugGone bool   `json:"hotplug_gone"`
+	PlugName    string `json:"plug_name,omitempty"` // name of the plug in the connection reference; default plug<i>
+	SlotName    string `json:"slot_name,omitempty"` // name of the slot; default slot<i>. Both independent of Iface.
 }
 
 type c26In struct {
@@ -177,25 +179,29 @@ func c26PkMode(mode int) (map[string]string, string) {
 
 const c26PkModes = 8
 
+func c26C(snap, slot, iface string, undesired, gone bool) c26Conn {
+	return c26Conn{Snap: snap, Slot: slot, Iface: iface, Undesired: undesired, HotplugGone: gone}
+}
+
 func c26ConnMode(mode int) []c26Conn {
 	switch mode {
 	case 0:
 		return nil
 	case 1: // everything the gated endpoints ask for, actively connected by the calling snap
-		return []c26Conn{{c26Snap, "core", "snap-refresh-observe", false, false}, {c26Snap, "core", "snap-themes-control", false, false},
-			{c26Snap, "core", "snap-interfaces-requests-control", false, false}}
+		return []c26Conn{c26C(c26Snap, "core", "snap-refresh-observe", false, false), c26C(c26Snap, "core", "snap-themes-control", false, false),
+			c26C(c26Snap, "core", "snap-interfaces-requests-control", false, false)}
 	case 2: // only inactive or foreign connections
-		return []c26Conn{{c26Snap, "core", "snap-refresh-observe", true, false}, {c26Snap, "core", "snap-themes-control", false, true},
-			{c26OtherSnap, "core", "snap-interfaces-requests-control", false, false}, {c26OtherSnap, "core", "snap-refresh-observe", false, false},
-			{c26Snap, "core", "network", false, false}}
+		return []c26Conn{c26C(c26Snap, "core", "snap-refresh-observe", true, false), c26C(c26Snap, "core", "snap-themes-control", false, true),
+			c26C(c26OtherSnap, "core", "snap-interfaces-requests-control", false, false), c26C(c26OtherSnap, "core", "snap-refresh-observe", false, false),
+			c26C(c26Snap, "core", "network", false, false)}
 	case 3:
-		return []c26Conn{{c26Snap, "core", "snap-refresh-observe", false, false}, {c26Snap, "core", "snap-refresh-observe", true, false}}
+		return []c26Conn{c26C(c26Snap, "core", "snap-refresh-observe", false, false), c26C(c26Snap, "core", "snap-refresh-observe", true, false)}
 	case 4:
-		return []c26Conn{{c26Snap, "core", "snap-themes-control", false, false}, {c26OtherSnap, "core", "snap-refresh-observe", false, false}}
+		return []c26Conn{c26C(c26Snap, "core", "snap-themes-control", false, false), c26C(c26OtherSnap, "core", "snap-refresh-observe", false, false)}
 	case 5:
-		return []c26Conn{{c26Snap, "core", "snap-interfaces-requests-control", false, false}, {c26Snap, "core", "snap-refresh-control", false, false}}
+		return []c26Conn{c26C(c26Snap, "core", "snap-interfaces-requests-control", false, false), c26C(c26Snap, "core", "snap-refresh-control", false, false)}
 	}
-	return []c26Conn{{c26Snap, "core", "snap-refresh-control", false, false}, {c26Snap, "core", "network", false, false}}
+	return []c26Conn{c26C(c26Snap, "core", "snap-refresh-control", false, false), c26C(c26Snap, "core", "network", false, false)}
 }
 
 const c26ConnModes = 7
@@ -319,6 +325,15 @@ func c26Gen(r *vh.Rand, tier string, n int) []c26In {
 						[]c26Conn{{Snap: who, Slot: "core", Iface: strings.ToUpper(iface)}},
 						[]c26Conn{{Snap: who, Slot: "core", Iface: "network"}},
 						[]c26Conn{{Snap: who + "x", Slot: "core", Iface: iface}, {Snap: "x" + who, Slot: "core", Iface: iface}},
+						// plug / slot NAMES are independent of the interface: a name that equals a listed interface must not
+						// open anything when the connection's interface is another one, and a genuine connection counts
+						// whatever its plug and slot are called
+						[]c26Conn{{Snap: who, Slot: "core", PlugName: iface, Iface: "content"}},
+						[]c26Conn{{Snap: who, Slot: "core", SlotName: iface, Iface: "content"}},
+						[]c26Conn{{Snap: who, Slot: "core", PlugName: iface, SlotName: iface, Iface: "content"}},
+						[]c26Conn{{Snap: who, Slot: "core", PlugName: "content", SlotName: "content", Iface: iface}},
+						[]c26Conn{{Snap: who, Slot: "core", PlugName: "network", SlotName: iface, Iface: iface}},
+						[]c26Conn{{Snap: who, Slot: "core", PlugName: iface, Iface: "content"}, {Snap: peerOf, Slot: "core", PlugName: "some-plug", Iface: iface}},
 					)
 				}
 			}
@@ -543,7 +558,14 @@ func c26Serve(in c26In) vh.Out {
 		if slot == "" {
 			slot = "core"
 		}
-		ref := fmt.Sprintf("%s:plug%d %s:slot%d", c.Snap, i, slot, i)
+		plugName, slotName := c.PlugName, c.SlotName
+		if plugName == "" {
+			plugName = fmt.Sprintf("plug%d", i)
+		}
+		if slotName == "" {
+			slotName = fmt.Sprintf("slot%d", i)
+		}
+		ref := fmt.Sprintf("%s:%s %s:%s", c.Snap, plugName, slot, slotName)
 		conns[ref] = map[string]interface{}{"interface": c.Iface, "undesired": c.Undesired, "hotplug-gone": c.HotplugGone}
 	}
 	st.Lock()
